@@ -568,7 +568,7 @@ def check_grid_point(ck, rng, method, b, m, mt, mode, collect=None):
 def code_formula_F(method, b, m, mt, requested):
     """what the model claims the code computes, recomputed independently with rationals"""
     if method == "conservative":
-        return F(b + 1, requested + 1)
+        return F(b + 1, m + 1)
     if method == "estimate":
         return F(b, m)
     if method in ("exact", "auto"):
